@@ -63,7 +63,7 @@ class Canon:
             self.impure = True       # too deep to compare reliably
             return "…"
         b = self.b
-        if b.lname(l) or 1 <= l <= b["arg_count"]:
+        if (b.lname(l) and b.lname(l) not in ("val", "residual")) or 1 <= l <= b["arg_count"]:
             self.leaf = True
             return "v%d" % l
         ds = self.defs.of(l)
@@ -115,7 +115,7 @@ def run(F, scopes, rule_id="R25", floor=1):
         defs = None
         for l in range(b["arg_count"] + 1, len(b.locals)):
             nm = b.lname(l)
-            if not nm:
+            if not nm or nm in ("val", "residual"):
                 continue
             lt = b.lty(l) or {}
             if lt.get("k") in ("int", "bool", "uint", "char", "str") or str(lt.get("s", "")).lstrip("&") in ("usize", "bool", "i32", "u32", "u64", "i64", "isize", "str", "std::string::String"):
